@@ -90,6 +90,7 @@ Fixpoint slicer_chunk (fuel : nat) (avg var : Z) (start end_ : Z) (draws : list 
                end
         else (mid0, draws, true) in
       if negb ok then CRBadRand else
+      let mid := slicer_clamp start end_ mid in
       match slicer_chunk f avg var start mid draws1 with
       | CROk l d2 =>
         match slicer_chunk f avg var mid end_ d2 with
